@@ -35,7 +35,8 @@ Record cinv (c : cache) : Prop := {
   ci_dom_start : forall x T, In x (c_sorted c) -> In T truth -> tcontains T (r_start x) = true -> r_ver x <= d_ver T;
   ci_dom_lat : forall T v cf, In T truth -> lat_get (d_id T) (c_latest c) = Some (v, cf) -> v <= d_ver T /\ cf <= d_conf T;
   ci_dom_id : forall x T, In x (c_sorted c) -> In T truth -> r_id x = d_id T -> r_ver x <= d_ver T /\ r_conf x <= d_conf T;
-  ci_ok : forall x, In x (c_sorted c) -> entry_ok x }.
+  ci_ok : forall x, In x (c_sorted c) -> entry_ok x;
+  ci_len : forall x, In x (c_sorted c) -> length (r_sepochs x) = length (r_peers x) }.
 
 Lemma T_contains_start T : In T truth -> tcontains T (d_start T) = true.
 Proof. intros H. apply contains_spec. split; [apply leb_refl|]. destruct (tw_nonempty _ Htw T H) as [E|E]; [left|right]; exact E. Qed.
@@ -101,12 +102,12 @@ Proof.
 Qed.
 
 Lemma insert_truth c r T :
-  cinv c -> In T truth -> of_truth r T -> fresh r -> (r_work r < length (r_peers r))%nat ->
-  exists c' deleted, insert_region c r = (true, c') /\ cinv c' /\
+  cinv c -> In T truth -> of_truth r T -> fresh r -> (r_work r < length (r_peers r))%nat -> length (r_sepochs r) = length (r_peers r) ->
+  exists c' deleted, insert_region c r = (true, c') /\ cinv c' /\ c_sepochs c' = c_sepochs c /\
      In (inherit r deleted) (c_sorted c') /\
      (forall x, In x (c_sorted c') -> x = inherit r deleted \/ In x (c_sorted c)).
 Proof.
-  intros Hc HT Hof Hfr Hw. pose proof Hof as [Hid [Hst [Hen [Hve [Hco Hpe]]]]].
+  intros Hc HT Hof Hfr Hw Hlen. pose proof Hof as [Hid [Hst [Hen [Hve [Hco Hpe]]]]].
   assert (Hne : nonempty_range r) by (unfold nonempty_range; rewrite Hst, Hen; apply (tw_nonempty _ Htw T HT)).
   assert (Hacc : fst (insert_region c r) = true).
   { rewrite insert_region_unfold. unfold stale_by_latest. rewrite Hid.
@@ -136,7 +137,10 @@ Proof.
   assert (Hkeepv : forall x, In x (c_sorted c) -> ~ starts_in r x -> r_verid x <> d_verid T).
   { intros x Hx Hn Hv. destruct (ci_hist c Hc x T Hx HT Hv) as [Ha _]. apply Hn. unfold starts_in. rewrite Ha, Hst. split; [apply leb_refl|].
     rewrite Hen. apply (tw_nonempty _ Htw T HT). }
-  split; [|split; [apply H3; left; reflexivity|intros x Hx; apply H3 in Hx; destruct Hx as [Hx|[Hx _]]; [left|right]; exact Hx]].
+  assert (Hse : c_sepochs c' = c_sepochs c).
+  { clear - Ei. rewrite insert_region_unfold in Ei. destruct (stale_by_latest c r); [discriminate|].
+    destruct (remove_intersecting r (c_sorted c)) as [[l1 dl] st]. destruct st; [discriminate|]. cbv zeta in Ei. injection Ei as <-. reflexivity. }
+  split; [|split; [exact Hse|split; [apply H3; left; reflexivity|intros x Hx; apply H3 in Hx; destruct Hx as [Hx|[Hx _]]; [left|right]; exact Hx]]].
   constructor.
   - exact H6.
   - intros x T' Hx HT' Hv. apply H3 in Hx. destruct Hx as [->|[Hx _]]; [|apply (ci_hist c Hc x T' Hx HT' Hv)].
@@ -165,15 +169,17 @@ Proof.
     + rewrite I6. unfold r1, inherit, with_work. destruct deleted as [|old t]; [exact Hw|]. destruct (r_reason old =? 1); [|exact Hw].
       cbn [r_work]. apply Nat.mod_upper_bound. destruct (r_peers r); [congruence|discriminate].
     + rewrite I10, F2. congruence.
+  - intros x Hx. apply H3 in Hx. destruct Hx as [->|[Hx _]]; [|apply (ci_len c Hc x Hx)].
+    rewrite I6. unfold r1, inherit, with_work. destruct deleted as [|old t]; [exact Hlen|]. destruct (r_reason old =? 1); exact Hlen.
 Qed.
 
 (* ---- updating an entry in place ---- *)
 Lemma upd_entry_inv c r f :
-  cinv c -> In r (c_sorted c) -> same_shape f -> entry_ok (f r) ->
+  cinv c -> In r (c_sorted c) -> same_shape f -> entry_ok (f r) -> length (r_sepochs (f r)) = length (r_peers (f r)) ->
   cinv (upd_entry c r f) /\
   (forall y, In y (c_sorted (upd_entry c r f)) <-> y = f r \/ (In y (c_sorted c) /\ y <> r)).
 Proof.
-  intros Hc Hr Hf Hok. pose proof (upd_fun_shape r f Hf) as Hg. pose proof (ci_sorted c Hc) as Hs.
+  intros Hc Hr Hf Hok Hlen. pose proof (upd_fun_shape r f Hf) as Hg. pose proof (ci_sorted c Hc) as Hs.
   assert (Hmem : forall y, In y (c_sorted (upd_entry c r f)) <-> y = f r \/ (In y (c_sorted c) /\ y <> r)).
   { intros y. rewrite upd_entry_sorted, in_map_iff. split.
     - intros [x [<- Hx]].
@@ -200,5 +206,6 @@ Proof.
   - intros T v cf HT Hl. apply (ci_dom_lat c Hc T v cf HT Hl).
   - intros y T Hy HT Hi. destruct (Hpre y Hy) as [x [Hx ->]]. destruct (Hg x) as [Ha [_ [_ [Hb [Hc' _]]]]]. rewrite Ha in Hi. rewrite Hb, Hc'. apply (ci_dom_id c Hc x T Hx HT Hi).
   - intros y Hy. apply Hmem in Hy. destruct Hy as [->|[Hy _]]; [exact Hok|apply (ci_ok c Hc y Hy)].
+  - intros y Hy. apply Hmem in Hy. destruct Hy as [->|[Hy _]]; [exact Hlen|apply (ci_len c Hc y Hy)].
 Qed.
 End Inv.
